@@ -1,45 +1,485 @@
 (* NumFmt.v — textual forms of numbers: Number::parse / parse_with_exactness
-   (number.rs:66-122), Display (939-950) and the radix printers (952-1018).
+   (number.rs:66-122), to_exact / to_inexact (210-236), Display (939-950) and the
+   radix printers (952-1018), with the parts of the num crates they run:
+   core's iN::from_str_radix, num-bigint 0.4.4 BigInt::from_str_radix,
+   num-rational 0.4.1 Ratio::from_str_radix / reduce / approximate_float / to_f64,
+   num-traits 0.2.18 <f64 as Num>::from_str_radix.
    INTERFACE FIXED HERE (used by Parse.v, Datum.v):
      parse_with_exactness : text -> exactness -> Z -> out (option num)
      num_display          : num -> text
-   PLACEHOLDER BODY: integers in radix 2..36 only; the numbers work package replaces it. *)
-From MW Require Import Model.Base Model.F64 Model.Num.
+   Definitions only.                                                            *)
+From Coq Require Import ZArith List Bool.
+From Flocq Require Import IEEE754.BinarySingleNaN.
+From MW Require Import Model.Base Model.F64 Model.Num Model.Digits Model.F64Fmt.
 Open Scope Z_scope.
 
-Definition digit_val (c : N) : option Z :=
-  if is_digit c then Some (Z.of_N c - 48)
-  else if ((97 <=? c) && (c <=? 122))%N then Some (Z.of_N c - 87)
-  else if ((65 <=? c) && (c <=? 90))%N then Some (Z.of_N c - 55)
-  else None.
+(* panic sites *)
+Definition P_RADIX : N := 20.        (* from_str_radix: radix outside 2..=36 *)
+Definition P_I32_OVERFLOW : N := 21. (* num-rational reduce: 0 - i32::MIN (debug build) *)
+Definition P_DENOM_ZERO : N := 22.   (* Ratio::new with a zero denominator *)
+Definition P_UNWRAP : N := 23.       (* Option::unwrap on None *)
 
-Fixpoint parse_digits (radix : Z) (l : text) (acc : Z) : option Z :=
-  match l with
-  | [] => Some acc
-  | c :: r => match digit_val c with
-              | Some d => if d <? radix then parse_digits radix r (acc * radix + d) else None
-              | None => None
-              end
-  end.
-
-Definition parse_int (t : text) (radix : Z) : option Z :=
+(* ---------------------------------------------------- iN::from_str_radix (core) *)
+(* core::num from_ascii_radix for a signed type of range [lo, hi]: empty, a lone
+   sign, a non-digit or a value out of range is an error; no '_' separators *)
+Definition int_from_str_radix (lo hi : Z) (t : text) (radix : Z) : option Z :=
+  let check (o : option Z) :=
+    match o with
+    | Some v => if (lo <=? v) && (v <=? hi) then Some v else None
+    | None => None
+    end in
   match t with
   | [] => None
-  | 45%N :: (_ :: _) as r => option_map Z.opp (parse_digits radix r 0)
-  | 43%N :: (_ :: _) as r => parse_digits radix r 0
-  | 45%N :: [] | 43%N :: [] => None
-  | _ => parse_digits radix t 0
+  | c :: r =>
+      if ((c =? 43) || (c =? 45))%N then
+        match r with
+        | [] => None                                   (* a lone sign *)
+        | _ => if (c =? 45)%N then check (option_map Z.opp (digits_value radix r 0))
+               else check (digits_value radix r 0)
+        end
+      else check (digits_value radix t 0)
   end.
 
-Definition parse_with_exactness (t : text) (ex : exactness) (radix : Z) : out (option num) :=
-  match parse_int t radix with
-  | Some z => Ok (Some (if in_i64 z then Fixnum z else BigInt z))
+(* --------------------------------- BigUint / BigInt::from_str_radix (num-bigint) *)
+(* biguint/convert.rs:244-257: '_' is skipped, anything else must be a digit *)
+Fixpoint big_digits (radix : Z) (l : text) (acc : Z) : option Z :=
+  match l with
+  | [] => Some acc
+  | c :: r =>
+      if (c =? 95)%N then big_digits radix r acc
+      else match to_digit radix c with
+           | Some d => big_digits radix r (acc * radix + d)
+           | None => None
+           end
+  end.
+
+(* biguint/convert.rs:223-272 *)
+Definition strip_plus (t : text) : text :=      (* lines 226-231: one leading '+' unless followed by another *)
+  match t with
+  | c :: tail =>
+      if (c =? 43)%N then
+        match tail with
+        | c2 :: _ => if (c2 =? 43)%N then t else tail
+        | [] => tail
+        end
+      else t
+  | [] => t
+  end.
+Definition biguint_from_str_radix (t : text) (radix : Z) : option Z :=
+  match strip_plus t with
+  | [] => None
+  | c :: _ => if (c =? 95)%N then None else big_digits radix (strip_plus t) 0
+  end.
+
+(* bigint/convert.rs:29-41 *)
+Definition bigint_from_str_radix (t : text) (radix : Z) : option Z :=
+  match t with
+  | c :: tail =>
+      if (c =? 45)%N then
+        let s := match tail with
+                 | c2 :: _ => if (c2 =? 43)%N then t else tail
+                 | [] => tail
+                 end in
+        option_map Z.opp (biguint_from_str_radix s radix)
+      else biguint_from_str_radix t radix
+  | [] => biguint_from_str_radix t radix
+  end.
+
+(* ------------------------------------------------ Ratio<i32> (num-rational) *)
+(* i32 subtraction: overflow panics in a debug build and wraps in a release build *)
+Definition sub_i32 (p : profile) (a b : Z) : out Z :=
+  let r := a - b in
+  if in_i32 r then Ok r else match p with Debug => Panic P_I32_OVERFLOW | Release => Ok (wrap 32 r) end.
+
+(* Ratio::new = new_raw + reduce, lib.rs:130-164.  num-integer's Stein gcd equals the
+   mathematical gcd whenever the result is below 2^31, which holds here: the only
+   i32 pairs with gcd 2^31 are (MIN, MIN) (caught by numer == denom) and (MIN, 0). *)
+Definition ratio32_new (p : profile) (n d : Z) : out (Z * Z) :=
+  if d =? 0 then Panic P_DENOM_ZERO
+  else if n =? 0 then Ok (0, 1)
+  else if n =? d then Ok (1, 1)
+  else
+    let g := Z.gcd n d in
+    let n' := Z.quot n g in
+    let d' := Z.quot d g in
+    if d' <? 0 then
+      do n2 <- sub_i32 p 0 n';
+      do d2 <- sub_i32 p 0 d';
+      Ok (n2, d2)
+    else Ok (n', d').
+
+(* split at the first '/': s.splitn(2, '/') *)
+Fixpoint split_slash (l : text) : option (text * text) :=
+  match l with
+  | [] => None
+  | c :: r =>
+      if (c =? 47)%N then Some ([], r)
+      else match split_slash r with
+           | Some (a, b) => Some (c :: a, b)
+           | None => None
+           end
+  end.
+
+(* Ratio<i32>::from_str_radix, lib.rs:963-984; None = Err(_) *)
+Definition ratio32_from_str_radix (p : profile) (t : text) (radix : Z) : out (option (Z * Z)) :=
+  match split_slash t with
   | None => Ok None
+  | Some (a, b) =>
+      match int_from_str_radix I32_MIN I32_MAX a radix with
+      | None => Ok None
+      | Some n =>
+          match int_from_str_radix I32_MIN I32_MAX b radix with
+          | None => Ok None
+          | Some d => if d =? 0 then Ok None else do r <- ratio32_new p n d; Ok (Some r)
+          end
+      end
   end.
 
+(* Ratio<BigInt>::from_str_radix followed by reduce: lowest terms, denom > 0 *)
+Definition bigratio_from_str_radix (t : text) (radix : Z) : option (Z * Z) :=
+  match split_slash t with
+  | None => None
+  | Some (a, b) =>
+      match bigint_from_str_radix a radix with
+      | None => None
+      | Some n =>
+          match bigint_from_str_radix b radix with
+          | None => None
+          | Some d =>
+              if d =? 0 then None
+              else if n =? 0 then Some (0, 1)
+              else if n =? d then Some (1, 1)
+              else
+                let g := Z.gcd n d in
+                let n' := n / g in
+                let d' := d / g in
+                if d' <? 0 then Some (- n', - d') else Some (n', d')
+          end
+      end
+  end.
+
+(* Ratio<BigInt>::to_f64 = ratio_to_f64 (lib.rs:1528-1620): n/d rounded to nearest
+   even, overflow to an infinity *)
+Definition bigratio_to_f64 (n d : Z) : f64 :=
+  match n, d with
+  | Zpos a, Zpos b => f64_of_ratio false a b
+  | Zneg a, Zpos b => f64_of_ratio true a b
+  | _, _ => f64_zero
+  end.
+
+(* Number::parse_rational, number.rs:90-122 *)
+Definition parse_rational (p : profile) (t : text) (radix : Z) : out (option num) :=
+  do r <- ratio32_from_str_radix p t radix;
+  match r with
+  | Some (n, d) => if d =? 1 then Ok (Some (Fixnum n)) else Ok (Some (Rational n d))
+  | None =>
+      match bigratio_from_str_radix t radix with
+      | Some (n, d) =>
+          if d =? 1 then Ok (Some (if in_i64 n then Fixnum n else BigInt n))
+          else Ok (Some (Float (bigratio_to_f64 n d)))
+      | None => Ok None
+      end
+  end.
+
+(* ------------------------- <f64 as Num>::from_str_radix (num-traits lib.rs:221-391) *)
+Definition f64_of_bool_zero (neg : bool) : f64 := B754_zero neg.
+Definition f64_one : f64 := f64_of_Z 1.
+Definition f64_neb (a b : f64) : bool := negb (f64_eqb a b).
+
+(* usize::from_str: optional '+', at least one digit, value <= usize::MAX *)
+Definition parse_usize (t : text) : option Z :=
+  let s := match t with 43%N :: r => r | _ => t end in
+  match s with
+  | [] => None
+  | _ => match digits_value 10 s 0 with
+         | Some v => if v <=? U64_MAX then Some v else None
+         | None => None
+         end
+  end.
+
+(* Float::powi(2.0, n) through compiler-rt's __powidf2: 2^n by repeated squaring,
+   reciprocal taken at the end: exact inside the normal range, infinity above,
+   and 1/inf = 0 below (no gradual underflow) *)
+Definition powi2 (n : Z) : f64 :=
+  if 0 <=? n then (if n <=? 1023 then f64_of_Z2 1 n else B754_infinity false)
+  else (if - n <=? 1023 then f64_of_Z2 1 n else B754_zero false).
+
+Inductive fsr_res := FOk (f : f64) | FInvalid.
+
+(* the exponent part, lib.rs:355-385; [rest] is the text after the exponent letter *)
+Definition fsr_exponent (c : cp) (radix : Z) (rest : text) : option f64 :=
+  let is_p := ((c =? 112) || (c =? 80))%N in
+  if is_p && (radix =? 16) then
+    match rest with
+    | [] => None
+    | 45%N :: r => match parse_usize r with
+                   | Some e => Some (f64_div f64_one (powi2 (wrap 32 e)))
+                   | None => None
+                   end
+    | 43%N :: r => option_map (fun e => powi2 (wrap 32 e)) (parse_usize r)
+    | _ => option_map (fun e => powi2 (wrap 32 e)) (parse_usize rest)
+    end
+  else None.   (* 'e'/'E' count only for radix 10, which never reaches this code *)
+
+Definition is_exp_char (c : cp) : bool := ((c =? 101) || (c =? 69) || (c =? 112) || (c =? 80))%N.
+
+(* fractional part, lib.rs:321-352 *)
+Fixpoint fsr_frac (pos : bool) (radix : Z) (l : text) (sig prev power : f64) : option f64 :=
+  match l with
+  | [] => Some sig
+  | c :: r =>
+      match to_digit radix c with
+      | Some digit =>
+          let power := f64_div power (f64_of_Z radix) in
+          let term := f64_mul (f64_of_Z digit) power in
+          let sig := if pos then f64_add sig term else f64_sub sig term in
+          if pos && f64_ltb sig prev then Some (B754_infinity false)
+          else if negb pos && f64_ltb prev sig then Some (B754_infinity true)
+          else fsr_frac pos radix r sig sig power
+      | None =>
+          if is_exp_char c then
+            match fsr_exponent c radix r with
+            | Some e => Some (f64_mul sig e)
+            | None => None
+            end
+          else None
+      end
+  end.
+
+(* integer part, lib.rs:275-317 *)
+Fixpoint fsr_int (pos : bool) (radix : Z) (l : text) (sig prev : f64) : option f64 :=
+  match l with
+  | [] => Some sig
+  | c :: r =>
+      match to_digit radix c with
+      | Some digit =>
+          let fr := f64_of_Z radix in
+          let fd := f64_of_Z digit in
+          let sig := f64_mul sig fr in
+          let sig := if pos then f64_add sig fd else f64_sub sig fd in
+          if f64_neb prev f64_zero then
+            if pos && f64_leb sig prev then Some (B754_infinity false)
+            else if negb pos && f64_leb prev sig then Some (B754_infinity true)
+            else if pos && f64_neb prev (f64_div (f64_sub sig fd) fr) then Some (B754_infinity false)
+            else if negb pos && f64_neb prev (f64_div (f64_add sig fd) fr) then Some (B754_infinity true)
+            else fsr_int pos radix r sig sig
+          else fsr_int pos radix r sig sig
+      | None =>
+          if is_exp_char c then
+            match fsr_exponent c radix r with
+            | Some e => Some (f64_mul sig e)
+            | None => None
+            end
+          else if (c =? 46)%N then fsr_frac pos radix r sig prev f64_one
+          else None
+      end
+  end.
+
+Definition T_minf : text := 45%N :: T_inf.
+Definition T_minfinity : text := 45%N :: T_infinity.
+Definition T_mnan : text := 45%N :: T_nan.
+
+Definition f64_from_str_radix (t : text) (radix : Z) : option f64 :=
+  if radix =? 10 then dec2flt t
+  else if ieq t T_inf || ieq t T_infinity then Some (B754_infinity false)
+  else if ieq t T_minf || ieq t T_minfinity then Some (B754_infinity true)
+  else if ieq t T_nan || ieq t T_mnan then Some B754_nan
+  else
+    match t with
+    | [] => None
+    | [45%N] => None
+    | 45%N :: r => fsr_int false radix r (B754_zero true) (B754_zero true)
+    | _ => fsr_int true radix t (B754_zero false) (B754_zero false)
+    end.
+
+(* ------------------------------------------------------------ Number::parse *)
+(* number.rs:80-92; i64::from_str_radix panics first when the radix is invalid *)
+Definition number_parse (p : profile) (t : text) (radix : Z) : out (option num) :=
+  if (radix <? 2) || (36 <? radix) then Panic P_RADIX
+  else
+    match int_from_str_radix I64_MIN I64_MAX t radix with
+    | Some z => Ok (Some (Fixnum z))
+    | None =>
+        match bigint_from_str_radix t radix with
+        | Some z => Ok (Some (BigInt z))
+        | None =>
+            do r <- parse_rational p t radix;
+            match r with
+            | Some n => Ok (Some n)
+            | None =>
+                match f64_from_str_radix t radix with
+                | Some f => Ok (Some (Float f))
+                | None => Ok None
+                end
+            end
+        end
+    end.
+
+(* -------------------------------------------------- to_exact / to_inexact *)
+(* Number::is_integer on a float: num.floor() == *num (true for infinities) *)
+Definition float_is_integer (f : f64) : bool := f64_eqb (f64_floor f) f.
+
+(* i32 -> f64 and back, as NumCast does *)
+Definition F_I32_MAX : f64 := f64_of_Z I32_MAX.
+Definition f64_to_i32 (q : f64) : option Z :=
+  match f64_to_Z q with
+  | Some z => if in_i32 z then Some z else None
+  | None => None
+  end.
+
+Definition F_MAX_ERROR : f64 := f64_of_ratio false 1 (10 ^ 19).   (* the literal 10e-20 *)
+
+(* the loop of approximate_float_unsigned, lib.rs:1328-1380, T = i32; returns (n1, d1) *)
+Fixpoint approx_loop (fuel : nat) (val q : f64) (n0 d0 n1 d1 : Z) : Z * Z :=
+  match fuel with
+  | O => (n1, d1)
+  | S fu =>
+      match f64_to_i32 q with
+      | None => (n1, d1)
+      | Some a =>
+          let a_f := f64_of_Z a in
+          let f := f64_sub q a_f in
+          let tmax := I32_MAX in
+          if negb (a =? 0) &&
+             ((Z.quot tmax a <? n1) || (Z.quot tmax a <? d1)
+              || (tmax - n0 <? a * n1) || (tmax - d0 <? a * d1))
+          then (n1, d1)
+          else
+            let n := a * n1 + n0 in
+            let d := a * d1 + d0 in
+            let g := Z.gcd n d in
+            let n1' := if g =? 0 then n else Z.quot n g in
+            let d1' := if g =? 0 then d else Z.quot d g in
+            let err := f64_abs (f64_sub (f64_div (f64_of_Z n) (f64_of_Z d)) val) in
+            if f64_ltb err F_MAX_ERROR then (n1', d1')
+            else if f64_ltb f (f64_div f64_one F_I32_MAX) then (n1', d1')
+            else approx_loop fu val (f64_div f64_one f) n1 d1 n1' d1'
+      end
+  end.
+
+(* Rational32::from_f64 = approximate_float(val, 10e-20, 30), lib.rs:1283-1388 *)
+Definition ratio32_from_f64 (p : profile) (val : f64) : out (option (Z * Z)) :=
+  let negative := match val with
+                  | B754_zero s | B754_infinity s | B754_finite s _ _ _ => s
+                  | B754_nan => false
+                  end in
+  let a := f64_abs val in
+  if f64_is_nan a then Ok None
+  else if f64_ltb F_I32_MAX a then Ok None
+  else
+    let '(n1, d1) := approx_loop 30 a a 0 1 1 0 in
+    if d1 =? 0 then Ok None
+    else do r <- ratio32_new p n1 d1;
+         let '(n, d) := r in
+         Ok (Some (if negative then (- n, d) else (n, d))).
+
+(* Number::to_exact, number.rs:219-236; None = the Option is None *)
+Definition to_exact (p : profile) (n : num) : out (option num) :=
+  match n with
+  | Float f =>
+      if float_is_integer f then
+        match f64_to_Z f with
+        | Some z =>
+            if in_i64 z then Ok (Some (Fixnum z))                         (* f64::to_i64 *)
+            else if (- 2 ^ 127 <=? z) && (z <? 2 ^ 127) then Ok (Some (BigInt z))   (* to_i128 *)
+            else Ok None
+        | None => Ok None
+        end
+      else
+        do r <- ratio32_from_f64 p f;
+        match r with
+        | Some (a, b) => Ok (Some (Rational a b))
+        | None => Ok (Some (Float f))
+        end
+  | _ => Ok (Some n)
+  end.
+
+(* Number::to_inexact, number.rs:210-217 *)
+Definition to_inexact (n : num) : num :=
+  match n with
+  | Fixnum z => Float (f64_of_Z z)
+  | BigInt z => Float (f64_of_Z z)
+  | Rational a b => Float (f64_div (f64_of_Z a) (f64_of_Z b))
+  | Float f => Float f
+  end.
+
+(* Number::parse_with_exactness, number.rs:66-78 *)
+Definition parse_with_exactness_p (p : profile) (t : text) (ex : exactness) (radix : Z) : out (option num) :=
+  do r <- number_parse p t radix;
+  match r with
+  | None => Ok None
+  | Some n =>
+      match ex with
+      | Unspecified => Ok (Some n)
+      | Exact => do e <- to_exact p n; Ok (Some (match e with Some m => m | None => n end))
+      | Inexact => Ok (Some (to_inexact n))
+      end
+  end.
+
+(* the interface used by Parse.v: the debug build (i32 overflow panics) *)
+Definition parse_with_exactness (t : text) (ex : exactness) (radix : Z) : out (option num) :=
+  parse_with_exactness_p Debug t ex radix.
+
+(* ------------------------------------------------------------------ Display *)
+Definition F_1E10 : f64 := f64_of_Z (10 ^ 10).
+
+(* num-rational impl_formatting, lib.rs:1031-1054, on a ratio whose parts print in
+   sign-magnitude: the numerator alone when the denominator is one *)
+Definition ratio_fmt (r a b : Z) : text :=
+  if b =? 1 then show_int_radix r a else show_int_radix r a ++ [47%N] ++ show_int_radix r b.
+
+(* impl Display for Number, number.rs:939-950 *)
 Definition num_display (n : num) : text :=
   match n with
-  | Fixnum z | BigInt z => show_Z z
-  | Rational a b => show_Z a ++ [47%N] ++ show_Z b
-  | Float _ => [63%N]
+  | Fixnum z => show_int_radix 10 z
+  | BigInt z => show_int_radix 10 z
+  | Float f =>
+      if f64_ltb F_1E10 f then fmt_exp f
+      else if float_is_integer f then fmt_fixed1 f
+      else fmt_display f
+  | Rational a b => ratio_fmt 10 a b
+  end.
+
+(* ------------------------------------------- LowerHex / Octal / Binary *)
+(* `f as i64` for a float: saturating, NaN -> 0 *)
+Definition f64_as_i64 (f : f64) : Z :=
+  match f with
+  | B754_nan => 0
+  | B754_infinity s => if s then I64_MIN else I64_MAX
+  | _ => match f64_to_Z f with
+         | Some z => if z <? I64_MIN then I64_MIN else if I64_MAX <? z then I64_MAX else z
+         | None => 0
+         end
+  end.
+
+(* write_float_fract, number.rs:952-968.  Each iteration of the Rust loop consumes at
+   least one bit of a finite fraction; it never terminates on NaN (inf.fract() is NaN) *)
+Fixpoint write_float_fract (fuel : nat) (num : f64) (radix : Z) (first : bool) : out text :=
+  match fuel with
+  | O => NoFuel
+  | S fu =>
+      let num := f64_mul (f64_sub num (f64_trunc num)) (f64_of_Z radix) in   (* num.fract() * radix *)
+      if f64_eqb num f64_zero then Ok []
+      else
+        let d := show_nat_radix 16 (f64_as_i64 (f64_abs (f64_trunc num))) in
+        do rest <- write_float_fract fu num radix false;
+        Ok ((if first then [46%N] else []) ++ d ++ rest)
+  end.
+
+(* the Float arm of LowerHex/Octal/Binary, number.rs:974-980 etc. *)
+Definition float_fmt_radix (radix : Z) (f : f64) : out text :=
+  let sign := if f64_ltb f f64_zero then [45%N] else [] in
+  let ip := show_nat_radix radix (f64_as_i64 (f64_abs (f64_trunc f))) in
+  do fr <- write_float_fract 1200 f radix true;
+  Ok (sign ++ ip ++ fr).
+
+(* impl LowerHex/Octal/Binary for Number (number.rs:970-1018) AFTER the fix for
+   negative-nondecimal: fixnums and rationals are rendered through BigInt /
+   BigRational, i.e. in sign-magnitude like bignums *)
+Definition num_fmt_radix (radix : Z) (n : num) : out text :=
+  match n with
+  | Fixnum z => Ok (show_int_radix radix z)
+  | BigInt z => Ok (show_int_radix radix z)
+  | Rational a b => Ok (ratio_fmt radix a b)
+  | Float f => float_fmt_radix radix f
   end.
